@@ -257,8 +257,145 @@ def main_c36(run):
                       extra={"exhaustive": True})
 
 
+# ---------------------------------------------------------------- C37
+def render_stream(items, base, other=None):
+    out = ["(setv OUT [])"]
+    for i, (k, n) in enumerate(items, 1):
+        tag = base + i + 1
+        if k == "def":
+            out.append(f"(defreader {n} {tag})")
+        elif k == "defnone":
+            out.append(f"(defreader {n} None)")
+        elif k == "use":
+            out.append(f"(.append OUT [{i} #{n}])")
+        elif k == "both":
+            out.append(f"(do (defreader {n} {tag}) (.append OUT [{i} #{n}]))")
+        elif k == "req":
+            out.append(f"(require {other} :readers [{n}])")
+    return "\n".join(out) + "\n"
+
+
+def expected_out(res):
+    return [[i] if v == 0 else [i, v] for i, v in res["out"]]
+
+
+def main_c37(run):
+    import hy
+    from hy.reader import HyReader
+    from hy.reader.exceptions import LexException
+    from hy.errors import HyRequireError
+    from hy.compiler import hy_compile
+    rng = random.Random(run.seed)
+    q = run.quick
+    r = tlc.run("HyReaderMacros", tlc.cfg(constants={"MaxA": 3, "MaxB": 2},
+                                          invariants=["UseNeedsEarlierDef", "ModulesIsolated", "StrictAlternation", "Export"]),
+                run.work, workers=16, timeout=3000, label="rm")
+    if r.violated:
+        raise MachineryError(f"HyReaderMacros: {r.violated} violated on the specification")
+    run.add_tlc(r, "HyReaderMacros: every pair of streams (<= 3 items in A, <= 2 in B)")
+    cases = r.ex("CASE")
+    run.log(f"TLC: {len(cases)} stream pairs")
+    cases = rng.sample(cases, min(len(cases), 1200 if q else 25000))
+    d = run.work / "rmods"
+    d.mkdir(exist_ok=True)
+    sys.path.insert(0, str(d))
+    importlib.invalidate_caches()
+    try:
+        for k, c in enumerate(cases):
+            an, bn = f"hyv_rma_{k}", f"hyv_rmb_{k}"
+            ta = render_stream(c["sa"], 100)
+            tb = render_stream(c["sb"], 200, an)
+            (d / f"{an}.hy").write_text(ta)
+            (d / f"{bn}.hy").write_text(tb)
+            importlib.invalidate_caches()
+            key = json.dumps([c["sa"], c["sb"]])
+            run.case(key)
+
+            def load(name):
+                try:
+                    m = importlib.import_module(name)
+                    return m, None
+                except LexException as e:
+                    return sys.modules.get(name), "lex"
+                except (HyRequireError,) as e:
+                    return None, "require"
+                except Exception as e:
+                    return None, type(e).__name__
+            # route 1: file import
+            ma, ea = load(an)
+            ok = True
+            wa = c["ra"]
+            if (ea is not None) != (wa["err"] != 0):
+                ok = False
+                run.violation("A:" + key, f"module A stream {c['sa']}: import {'failed with ' + str(ea) if ea else 'succeeded'}, "
+                              f"expected {'an error at item %d' % wa['err'] if wa['err'] else 'success'}\n{ta}", {"case": c, "text": ta})
+            elif ea is None:
+                if ma.OUT != expected_out(wa):
+                    ok = False
+                    run.violation("A:" + key, f"module A stream {c['sa']}: OUT={ma.OUT}, expected {expected_out(wa)}\n{ta}",
+                                  {"case": c, "text": ta})
+                have = set(ma.__dict__.get("_hy_reader_macros", {}))
+                want = {n for n, t in wa["tab"].items() if t != 0}
+                if have != want:
+                    ok = False
+                    run.violation("A-table:" + key, f"module A defines reader macros {sorted(have)}, expected {sorted(want)}",
+                                  {"case": c})
+            elif ea not in ("lex",):
+                ok = False
+                run.violation("A:" + key, f"module A stream {c['sa']} failed with {ea}, expected a Hy syntax error", {"case": c})
+            # route 2: the same stream through hy_compile with an explicit, fresh reader
+            mod = types.ModuleType(an + "_c")
+            sys.modules[mod.__name__] = mod
+            try:
+                exec(compile(hy_compile(hy.read_many(ta, filename="<a>", reader=HyReader()), mod), "<a>", "exec"), mod.__dict__)
+                e2 = None
+            except LexException:
+                e2 = "lex"
+            except Exception as e:
+                e2 = type(e).__name__
+            finally:
+                sys.modules.pop(mod.__name__, None)
+            # (this route compiles the whole stream before running any of it: when reading fails nothing
+            # has run yet, so only the outcome is compared then)
+            if (e2 is not None) != (wa["err"] != 0) or (e2 is None and mod.OUT != expected_out(wa)):
+                ok = False
+                run.violation("A-compile:" + key, f"stream {c['sa']} through hy_compile with a fresh HyReader: error={e2} "
+                              f"OUT={mod.__dict__.get('OUT')}, expected error={'lex' if wa['err'] else None} "
+                              f"OUT={expected_out(wa)}", {"case": c, "text": ta})
+            if HyReader._current_reader is not None:
+                ok = False
+                run.violation("current-reader:" + key, "HyReader._current_reader is not None after reading", {"case": c})
+                HyReader._current_reader = None
+            if ea is None and wa["err"] == 0:
+                mb, eb = load(bn)
+                wb = c["rb"]
+                if (eb is not None) != (wb["err"] != 0):
+                    ok = False
+                    run.violation("B:" + key, f"module B stream {c['sb']} after A {c['sa']}: import "
+                                  f"{'failed with ' + str(eb) if eb else 'succeeded'}, expected "
+                                  f"{'an error at item %d' % wb['err'] if wb['err'] else 'success'}\n{tb}", {"case": c, "text": tb})
+                elif eb is None and mb.OUT != expected_out(wb):
+                    ok = False
+                    run.violation("B:" + key, f"module B stream {c['sb']} after A {c['sa']}: OUT={mb.OUT}, expected "
+                                  f"{expected_out(wb)}", {"case": c, "text": tb})
+            if ok:
+                run.cov["traces_validated_against_impl"] += 1
+            for nm in (an, bn):
+                sys.modules.pop(nm, None)
+    finally:
+        sys.path.remove(str(d))
+    run.sample({"A": cases[0]["sa"], "B": cases[0]["sb"], "text_A": render_stream(cases[0]["sa"], 100)})
+    return run.finish("model_checking",
+                      "every pair of top-level streams (module A <= 3 items, module B <= 2) over defreader, defreader "
+                      "returning None, uses, a form that defines and uses at once, and require :readers, for two reader "
+                      "names; TLC computes per stream the results of the uses and the item at which reading must fail; each "
+                      "pair is written as two module files and imported, and A is also compiled through an explicit fresh "
+                      "HyReader; results, errors, per-module reader tables and HyReader._current_reader compared",
+                      extra={"exhaustive": True})
+
+
 def main(run):
-    return {"C35": main_c35, "C36": main_c36}[run.pid](run)
+    return {"C35": main_c35, "C36": main_c36, "C37": main_c37}[run.pid](run)
 
 
 def replay(run, path):
